@@ -494,6 +494,91 @@ Proof.
   intros r p. split; [symmetry; apply rule_matchb_spec | apply rule_fn_spec].
 Qed.
 
+(* ================= rule installation histories (AddFirewallRules) ================= *)
+
+Theorem install_after_clear : forall (A : Type) (h1 : list (list A * bool)) cur new h2,
+  install_all cur (h1 ++ (new, true) :: h2) = install_all new h2.
+Proof.
+  intros A h1. induction h1 as [|[l c] h1 IH]; intros cur new h2; simpl.
+  - reflexivity.
+  - apply IH.
+Qed.
+
+Theorem install_appends : forall (A : Type) (h : list (list A * bool)) cur,
+  forallb (fun x => negb (snd x)) h = true -> install_all cur h = cur ++ concat (map fst h).
+Proof.
+  intros A h. induction h as [|[l c] h IH]; intros cur H; simpl in *.
+  - now rewrite app_nil_r.
+  - apply andb_true_iff in H as [Hc H]. destruct c; [discriminate|].
+    unfold install. rewrite IH by assumption. now rewrite app_assoc.
+Qed.
+
+(* replacing the rule set by the empty one leaves no rule in force: every packet is accepted *)
+Theorem cleared_accepts_all : forall cur h1 self p,
+  node_handle self (install_all cur (h1 ++ [([], true)])) p = [(p, None)].
+Proof. intros. rewrite install_after_clear. reflexivity. Qed.
+
+(* ================= everything that leaves a node went through its rules ================= *)
+
+Lemma node_handle_passes self rules p q n :
+  In (q, n) (node_handle self rules p) -> passes rules q = true.
+Proof.
+  unfold node_handle, node_handle_with, passes, passes_with.
+  destruct (handle_with full rules p) as [| |[u|]] eqn:E; simpl; try tauto.
+  - intros [H|[]]. inversion H; subst. now rewrite E.
+  - destruct (handle_with full rules (notice_pkt self u)) eqn:E2; simpl; try tauto.
+    intros [H|[]]. inversion H; subst. now rewrite E2.
+Qed.
+
+Lemma emit_passes self rules u q n : In (q, n) (emit self rules u) -> passes rules q = true.
+Proof.
+  unfold emit, emit_with. fold (passes rules (notice_pkt self u)).
+  destruct (passes rules (notice_pkt self u)) eqn:E; simpl; try tauto.
+  intros [H|[]]. inversion H; subst. exact E.
+Qed.
+
+Theorem node_full_passes_thm : forall self rules p listening hops q n,
+  In (q, n) (node_full self rules p listening hops) -> passes rules q = true.
+Proof.
+  intros self rules p listening hops q n. unfold node_full, node_full_with.
+  fold (node_handle self rules p).
+  destruct (handle_with full rules p) eqn:E; try apply node_handle_passes.
+  assert (Hp : passes rules p = true) by (unfold passes, passes_with; now rewrite E).
+  assert (Hself : In (q, n) [(p, @None unreach_msg)] -> passes rules q = true).
+  { intros [H|[]]. inversion H; subst. exact Hp. }
+  destruct (beq_text (p_tonode p) self).
+  - destruct (beq_text (p_toservice p) svc_ping); [apply node_handle_passes|].
+    destruct (beq_text (p_toservice p) svc_unreach); auto.
+    destruct listening; auto.
+    destruct (beq_text (p_fromnode p) self); [simpl; tauto|]. apply emit_passes.
+  - destruct hops; auto.
+    destruct (beq_text (p_fromservice p) svc_unreach); [simpl; tauto|]. apply emit_passes.
+Qed.
+
+(* with a listener and hops left, and no reserved service involved, it is [node_handle] *)
+Theorem node_full_plain : forall self rules p,
+  beq_text (p_toservice p) svc_ping = false ->
+  node_full self rules p true true = node_handle self rules p.
+Proof.
+  intros self rules p Hs. unfold node_full, node_full_with, node_handle, node_handle_with.
+  destruct (handle_with full rules p); auto. rewrite Hs.
+  destruct (beq_text (p_tonode p) self); auto.
+  destruct (beq_text (p_toservice p) svc_unreach); auto.
+Qed.
+
+Theorem ping_self_spec : forall self eph rules,
+  (ping_self self eph rules = PingReply <->
+   passes rules (mkPkt self eph self svc_ping) = true /\ passes rules (mkPkt self svc_ping self eph) = true).
+Proof.
+  intros self eph rules. unfold ping_self, ping_self_with, passes, passes_with.
+  destruct (handle_with full rules (mkPkt self eph self svc_ping)) as [| |[u|]]; simpl.
+  - destruct (handle_with full rules (mkPkt self svc_ping self eph)); simpl; split;
+      try tauto; try discriminate; intros [_ H]; discriminate.
+  - split; [discriminate | intros [H _]; discriminate].
+  - destruct (handle_with full rules (notice_pkt self u)); split; try discriminate; intros [H _]; discriminate.
+  - split; [discriminate | intros [H _]; discriminate].
+Qed.
+
 (* ================= the pinned behaviour, refuted ================= *)
 
 Definition re_a_or_b : re := RAlt (RSet (CsChar 97)) (RSet (CsChar 98)).
